@@ -118,7 +118,11 @@ void exec_op(int task, int idx, TaskCtx& ctx) {
   arm_watchdog(G.op_cpu_seconds);
   Outcome o = run_op(c, ctx);
   arm_watchdog(0);
-  if (sh.ro.expect_digests && c.has("expect") && !o.skipped && o.clause.empty()) {
+  // cross-build equality is promised for what a configuration enables; operations addressing a parameter set that
+  // is disabled here are judged by the refusal oracle only
+  int64_t addressed = (c.op() == "sizes" || c.op() == "import") ? c.i("pb", 0) : c.i("param", 0);
+  bool comparable = !(addressed >= 1 && addressed <= 12 && !((G.enabled_mask >> addressed) & 1));
+  if (sh.ro.expect_digests && c.has("expect") && !o.skipped && o.clause.empty() && comparable) {
     if (hex64(o.digest) != c.s("expect"))
       o.fail(sh.plan->prop + ".differs_from_reference_build",
              "operation [" + c.op() + " " + c.s("param") + "] gives result digest " + hex64(o.digest) + " in " + G.variant + (G.node_override.empty() ? "" : "@" + G.node_override) +
